@@ -211,6 +211,9 @@ func c26Run(c *fx.Ctx) {
 						bits[i] = (uint64(i)+1)*0x9E3779B97F4A7C15 + phase*0x0123456789ABCDEF
 					}
 					c26Case(c, k, bits, "lengths")
+					if n == 3 && phase == 1 {
+						c.Sample(fmt.Sprintf("%s%s slice with element bits %x <-> bytes %x", k.name, c.Variant, bits, c26Ref(k.width, bits)))
+					}
 					c.Distinct("nontrivial", fmt.Sprintf("%s%d%d", k.name, n, phase))
 				}
 			}
